@@ -500,7 +500,7 @@ func init() {
 			{Scenario: "cfg.matrix", Params: vx.P("mode", "missing"), Weight: 2},
 			{Scenario: "cfg.matrix", Params: vx.P("mode", "values"), Weight: 2},
 			{Scenario: "cfg.dialer", Weight: 1},
-			// F17PENDING {Scenario: "cfg.documents", Weight: 1},
+			{Scenario: "cfg.documents", Weight: 1},
 		}
 		// the configured browser signature on the wire, through connection failures
 		for _, br := range []string{"chrome", "firefox", "safari"} {
